@@ -298,27 +298,31 @@ def _find_helper(unit, name):
 def _inline_helpers(unit, root, r):
     """Second fallback for a call to a function the unit does not contain (a helper a change introduced), when the helper has no spec form:
     the call is replaced, mechanically, by the helper's body as a block — `h(a, b)` becomes `{ let p: P = a; let q: Q = b; BODY }` — in every
-    function item of the unit.  Meaning-preserving for a FREE, non-recursive function whose body has no `return` and no `?` (both would leave the
+    function item of the unit.  Meaning-preserving for a FREE function — or a method called on `self`, whose `self` is then the caller's — that is non-recursive and whose body has no `return` and no `?` (both would leave the
     caller instead of the helper); anything else is refused.  Returns (new_unit, [names]) or (None, [])."""
     import copy as _copy
     from vlib.rsitems import mask, match_delim
     from vlib.cps import split_top
-    names = []
+    names, methods = [], set()
     for d in r.get("diagnostics", []):
         if d["level"] != "error":
             continue
         mt = MISSING_RE[0].search(d["msg"])
         if mt and mt.group(1) not in names:
             names.append(mt.group(1))
+        mt = MISSING_RE[1].search(d["msg"])
+        if mt and mt.group(1) not in names:
+            names.append(mt.group(1))
+            methods.add(mt.group(1))      # a method: only calls on `self` are followed (the helper's `self` is then the caller's)
     if not names:
         return None, []
     helpers = {}
     for name in names:
         hit = _find_helper(unit, name)
-        if not hit or hit[1] is not None:
+        if not hit or (hit[1] is not None) != (name in methods):
             return None, []
         src = gen.load_source(hit[0])
-        s0, b0, e0 = src.find_fn(name, None)
+        s0, b0, e0 = src.find_fn(name, hit[1])
         sig, body = src.text[s0:b0], src.text[b0 + 1:e0]
         mb = mask(body)
         if re.search(r"\breturn\b", mb) or "?" in mb or re.search(r"\b" + re.escape(name) + r"\s*\(", mb):
@@ -330,6 +334,8 @@ def _inline_helpers(unit, root, r):
         cl = match_delim(mask(sig), op)
         params = []
         for part in split_top(sig[op + 1:cl]):
+            if name in methods and re.fullmatch(r"&(?:'\w+\s+)?(?:mut\s+)?self", part.strip()):
+                continue
             mp = re.fullmatch(r"(?:mut\s+)?([A-Za-z_]\w*)\s*:\s*(.+)", part, re.S)
             if not mp or "self" == mp.group(1):
                 return None, []
@@ -343,7 +349,8 @@ def _inline_helpers(unit, root, r):
             text = mt.group(0)
             while True:
                 m = mask(text)
-                hits = [x for x in re.finditer(r"(?<![\w\.:])" + re.escape(name) + r"\s*\(", m) if not re.search(r"\bfn\s+$", m[:x.start()])]
+                pat = (r"\bself\s*\.\s*" if name in methods else r"(?<![\w\.:])") + re.escape(name) + r"\s*\("
+                hits = [x for x in re.finditer(pat, m) if not re.search(r"\bfn\s+$", m[:x.start()])]
                 if not hits:
                     return text
                 x = hits[-1]
